@@ -303,7 +303,12 @@ func init() {
 	reg("(reflect.Value).Interface", func(ex *Exec, fn *ssa.Function, a []Value) Value { return a[0].(*StructV).Fields[0] })
 
 	// --- url escaping at the UF level (C11 runs the real net/url code instead)
-	reg("net/url.QueryUnescape", func(ex *Exec, fn *ssa.Function, a []Value) Value { return ex.queryUnescape(a[0].(*Term)) })
+	reg("net/url.QueryUnescape", func(ex *Exec, fn *ssa.Function, a []Value) Value {
+		if ex.realBody("url.QueryUnescape") {
+			return ex.callBody(fn, a)
+		}
+		return ex.queryUnescape(a[0].(*Term))
+	})
 	reg("net/url.QueryEscape", func(ex *Exec, fn *ssa.Function, a []Value) Value {
 		if ex.realBody("url.QueryEscape") {
 			return ex.callBody(fn, a)
@@ -314,7 +319,12 @@ func init() {
 		}
 		return UF("qesc", SSeq, s)
 	})
-	reg("net/url.PathUnescape", func(ex *Exec, fn *ssa.Function, a []Value) Value { return ex.queryUnescape(a[0].(*Term)) })
+	reg("net/url.PathUnescape", func(ex *Exec, fn *ssa.Function, a []Value) Value {
+		if ex.realBody("url.PathUnescape") {
+			return ex.callBody(fn, a)
+		}
+		return ex.queryUnescape(a[0].(*Term))
+	})
 }
 
 func (ex *Exec) strSlice(ts []*Term) SliceV {
